@@ -218,6 +218,9 @@ def seeds(signed=None):
     add("key_from_der", [{"hex": PKCS8_V1}, "1"], 0, "hex")
     add("key_from_der", [{"hex": PKCS8_V2}, "1"], 0, "hex")
     add("key_from_der", [{"hex": PKCS8_V1}, "1"], 1)
+    if signed.get("ringdoc"):
+        add("key_from_der", [{"hex": signed["ringdoc"]}, "1"], 0, "hex")
+        add("key_from_der", [{"hex": "a1230321"}, "1"], 0, "hex")
     htmls = [MSG["content"]["formatted_body"],
              '<p>a<a href="https://x.y/?a=b&amp;c" target="_blank">l</a><img src="mxc://a/b" width=1><span data-mx-color="#ff0000" data-mx-spoiler>s</span></p>',
              '<ol start="2"><li>x</li></ol><pre><code class="language-rust">fn</code></pre><table><tr><td>1</td></tr></table><!-- c --><script>x</script>',
